@@ -75,4 +75,21 @@ example : assemble (splitStar "dev/*/db".toList) ["prod".toList] = some "dev/pro
 /-- non-vacuity of `allow_iff` -/
 example : allow true [{ actions := ["get"], secrets := ["dev/*".toList] }] "get" "dev/x".toList = true := by decide
 
+/-! ### T1: functions the model transcribes, statement by statement (white space collapsed) -/
+
+def expected_Secret_Match : List String := ["s := string(pat)", "if !strings.Contains(s, \"*\") && s == val { return true }", "parts := strings.Split(s, \"*\")", "for i := range parts { parts[i] = regexp.QuoteMeta(parts[i]) }", "re := regexp.MustCompile(fmt.Sprintf(\"(?s)^%s$\", strings.Join(parts, \".*\")))", "return re.MatchString(val)"]
+
+/-- Match: the pattern split at `*`, every piece quoted, joined by `.*`, anchored at both ends with the dot matching newlines (the literal fast path for a pattern without `*`) -/
+theorem fact_Secret_Match_as_transcribed : Facts.body_Secret_Match = expected_Secret_Match := by rfl
+
+def expected_Rules_Allow : List String := ["for _, r := range rr { if r.Allow(action, secret) { return true } }", "return false"]
+
+/-- Rules.Allow: some rule allows -/
+theorem fact_Rules_Allow_as_transcribed : Facts.body_Rules_Allow = expected_Rules_Allow := by rfl
+
+def expected_Rule_Allow : List String := ["actionMatches := func(acts []Action) bool { for _, a := range acts { if a == action { return true } } return false }", "secretMatches := func(secs []Secret) bool { for _, s := range secs { if s.Match(secret) { return true } } return false }", "return actionMatches(r.Action) && secretMatches(r.Secret)"]
+
+/-- Rule.Allow: one of the rule's actions is the action and one of its patterns matches the name - each pattern on its own -/
+theorem fact_Rule_Allow_as_transcribed : Facts.body_Rule_Allow = expected_Rule_Allow := by rfl
+
 end Setec.C07
